@@ -3,6 +3,9 @@ package checks
 import (
 	"encoding/json"
 	"fmt"
+	"os"
+	"sort"
+	"strings"
 
 	"verif/explore"
 	"verif/worlds"
@@ -33,6 +36,18 @@ func ExecDebug(args []string) int {
 		fmt.Println(tr.Fault.String())
 		fmt.Println(tr.Fault.Stack)
 		return 1
+	}
+	if pre := os.Getenv("VERIF_DUMP"); pre != "" && tr.Final() != nil {
+		var ks []string
+		for k := range tr.Final().Flat {
+			if strings.Contains(k, pre) {
+				ks = append(ks, k)
+			}
+		}
+		sort.Strings(ks)
+		for _, k := range ks {
+			fmt.Printf("  state %s = %s\n", k, tr.Final().Flat[k])
+		}
 	}
 	for i, t := range w.Menu {
 		fmt.Printf("  menu %2d %s\n", i, t.Name)
